@@ -20,6 +20,8 @@ def one(d):
     finally:
         shutil.rmtree(t, ignore_errors=True)
 seeds = sorted(glob.glob(os.path.join(HERE, 'seeded', '*')))
+if len(sys.argv) > 1:
+    seeds = [s for s in seeds if any(os.path.basename(s).startswith(a) for a in sys.argv[1:])]
 bad = 0
 with ThreadPoolExecutor(8) as ex:
     for name, caught, errs in ex.map(one, seeds):
